@@ -16,7 +16,7 @@ import time
 
 ROOT = os.path.dirname(os.path.dirname(os.path.abspath(__file__)))
 PY = sys.executable
-EVID = os.path.join(ROOT, "evidence")
+EVID = os.environ.get("VERIF_EVID_DIR") or os.path.join(ROOT, "evidence")
 REPLAYS = os.path.join(EVID, "replays")
 
 
@@ -159,8 +159,11 @@ def main_check(args) -> int:
     jobs = max(1, min(jobs, len(obligations) or 1))
     # longest first
     todo: "queue.Queue[dict]" = queue.Queue()
+    capmax = float(os.environ.get("VERIF_CAP_MAX", "0") or 0)
     for o in sorted(obligations, key=lambda o: -o.get("cap", 60)):
         o.setdefault("exclude", [])
+        if capmax:
+            o["cap"] = min(o.get("cap", 60), capmax)
         todo.put(o)
     results: dict[str, dict] = {}
     lock = threading.Lock()
